@@ -272,6 +272,12 @@ func VerifyAddressKey(ip netip.Addr, digestAlg crop.Hash, keyType crop.KeyPairTy
 		return errors.New("key type not specified")
 	case len(pubKeyData) == 0:
 		return errors.New("key not specified")
+	case !digestAlg.IsValid():
+		return errors.New("invalid or unsupported hash algorithm")
+	case len(keyType) > 0xFF:
+		return errors.New("key type name too long")
+	case len(pubKeyData) > 0xFFFF:
+		return errors.New("key too big")
 	}
 
 	// Make comparison.
@@ -491,6 +497,10 @@ func (addr *PublicAddress) VerifyAddress() error {
 	// Check if the address is in the base prefix.
 	if !BaseNetPrefix.Contains(addr.IP) {
 		return errors.New("invalid ip address")
+	}
+	// Check the key size, as using keys of other sizes panics.
+	if len(addr.PublicKey) != ed25519.PublicKeySize {
+		return fmt.Errorf("invalid public key size: %d (should be %d)", len(addr.PublicKey), ed25519.PublicKeySize)
 	}
 
 	return VerifyAddressKey(addr.IP, addr.Hash, addr.Type, addr.PublicKey, addr.Easing)
